@@ -870,7 +870,7 @@ func body(r *eng.Run) {
 		}
 	}
 	enumWants(r, w3, 3, fps, bpCfgs, false)
-	for d := 1; d <= eng.Pick(r, 4, 5); d++ {
+	for d := 1; d <= 4; d++ {
 		enumBP(r, bpops, d, fps[1:3], wantCfgs)
 	}
 	// scaled messages
@@ -899,6 +899,9 @@ func body(r *eng.Run) {
 		if i < 6 {
 			r.Sample(mc)
 		}
+	}
+	if th { // deepest level last: one full/pending/wantlist combination
+		enumBP(r, bpops, 5, fps[2:3], wantCfgs[1:])
 	}
 	r.Set("messages_round_tripped", cnt.msgs.Load())
 	r.Set("want_sequences_with_repeated_cid", cnt.withDupAdds.Load())
